@@ -43,6 +43,8 @@ type fullMon struct {
 	t           *tracker
 	enqueued    map[string]bool
 	startWrites map[string]int
+	// C07: Jobs the job-queue controller refused while their startAfter was still ahead
+	earlyRefused []*earlyRefusal
 	pendingVerify map[string]string
 }
 
@@ -66,12 +68,16 @@ func (m *fullMon) preWrite(actor, verb string, res Resource, old, obj runtime.Ob
 		if oj == nil && nj != nil {
 			m.c02Create(call, nj)
 		}
+		if oj != nil {
+			m.c07ObserveEarlyRefused(call, oj, nj)
+		}
 		if oj != nil && nj != nil {
 			if !isStarted(oj) && isStarted(nj) {
 				m.startWrite(call, oj, nj)
 			}
 			if !hasAdmissionError(oj) && hasAdmissionError(nj) && ctrlOfCall(call) == "jobqueue" {
 				m.stat("mon.c06.policy_decisions")
+				m.c07Refusal(oj)
 				if pol := jobPolicy(oj); pol != execution.ConcurrencyPolicyForbid {
 					m.v("C06/refused-non-forbid", "job-queue controller refused %s whose policy is %q", fmtJob(oj), pol)
 				}
@@ -92,6 +98,97 @@ func (m *fullMon) preWrite(actor, verb string, res Resource, old, obj runtime.Ob
 		if old != nil && obj != nil {
 			m.c15Pair(call, old.(*execution.JobConfig), obj.(*execution.JobConfig))
 		}
+	}
+}
+
+// ---------------------------------------------------------------------------
+// C07: a Job refused before it was due
+
+// earlyRefusal records a Job that the job-queue controller refused (terminal
+// admission error) while its startAfter was still in the future. C07 demands
+// that the Job is started once startAfter has passed and the policy allows;
+// a refused Job can never start, so this is a violation exactly when the
+// policy does allow from startAfter on. The monitor is deliberately narrow: it
+// reports only when the JobConfig was never seen at its limit at any point
+// from startAfter to the fixpoint (the active set changes only through Job
+// writes, and each write of the JobConfig's Jobs is observed in its
+// pre-state), the JobConfig still exists, and nobody but a controller removed
+// the Job before it was due.
+type earlyRefusal struct {
+	job        string
+	uid        string
+	cfgUID     string
+	startAfter time.Time
+	refusedAt  time.Time
+	sawFull    bool
+	dropped    bool
+}
+
+func (m *fullMon) c07Refusal(oj *execution.Job) {
+	sp := oj.Spec.StartPolicy
+	if sp == nil || sp.StartAfter.IsZero() {
+		return
+	}
+	now := m.w.Sim.Now()
+	if !now.Before(sp.StartAfter.Time) {
+		return
+	}
+	m.stat("mon.c07.refused_before_due")
+	uid := oj.Labels[labelJobConfigUID]
+	if uid == "" || metav1.GetControllerOf(oj) == nil {
+		return
+	}
+	m.earlyRefused = append(m.earlyRefused, &earlyRefusal{job: fmtJob(oj), uid: string(oj.UID), cfgUID: uid, startAfter: sp.StartAfter.Time, refusedAt: now})
+}
+
+// cfgAtLimit reports whether the JobConfig is at (or over) its concurrency
+// limit in the ground truth, or cannot be judged.
+func (m *fullMon) cfgAtLimit(cfgUID string) bool {
+	jc := m.t.jobConfigByUID(cfgUID)
+	if jc == nil {
+		return true
+	}
+	active := 0
+	for _, x := range m.t.jobsOfConfig(cfgUID) {
+		if isActive(x) {
+			active++
+		}
+	}
+	return active >= int(jc.Spec.Concurrency.GetMaxConcurrency())
+}
+
+func (m *fullMon) c07ObserveEarlyRefused(call *APICall, oj, nj *execution.Job) {
+	if len(m.earlyRefused) == 0 {
+		return
+	}
+	now := m.w.Sim.Now()
+	cfg := oj.Labels[labelJobConfigUID]
+	for _, r := range m.earlyRefused {
+		if r.dropped || r.sawFull {
+			continue
+		}
+		if r.uid == string(oj.UID) && now.Before(r.startAfter) && ctrlOfCall(call) == "" &&
+			(nj == nil || (oj.DeletionTimestamp == nil && nj.DeletionTimestamp != nil)) {
+			r.dropped = true // removed by the user (or the GC) before it was due
+			continue
+		}
+		if r.cfgUID == cfg && !now.Before(r.startAfter) && m.cfgAtLimit(cfg) {
+			r.sawFull = true
+		}
+	}
+}
+
+func (m *fullMon) c07EarlyRefusedFixpoint() {
+	now := m.w.Sim.Now()
+	for _, r := range m.earlyRefused {
+		if r.dropped || r.sawFull || now.Before(r.startAfter) {
+			continue
+		}
+		if m.t.jobConfigByUID(r.cfgUID) == nil || m.cfgAtLimit(r.cfgUID) {
+			continue
+		}
+		m.v("C07/refused-before-due", "%s was refused at %s, before its startAfter %s; since startAfter passed its JobConfig was never at its concurrency limit, so the policy allowed the start, but a refused Job never starts", r.job, fmtT(r.refusedAt), fmtT(r.startAfter))
+		r.dropped = true // reported once
 	}
 }
 
@@ -1234,6 +1331,7 @@ func (m *fullMon) c13TTLDelete(c *APICall, now time.Time) {
 func (m *fullMon) fixpoint() {
 	s := m.w.Sim
 	now := s.Now()
+	m.c07EarlyRefusedFixpoint()
 	api := m.w.API
 	dyn := m.w.Dyn
 	for _, o := range api.ListRaw(ResJobs) {
